@@ -194,7 +194,8 @@ class Exec:
 
     def run(self):
         sc, fs = self.sc, self.fs
-        p2p = p2p_module()
+        p2p_module()
+        p2p = p2p_module(reload=True)  # every execution starts as a new process
         self.setup()
         fs.mount()
         saved_limit = p2p.MAX_BLOCKFILE_SIZE
